@@ -18,7 +18,9 @@ IDX = dict((c, i) for i, c in enumerate(CODES8))
 GENERIC_ROUTES = ['var', 'cell', 'host-returns', 'host-raises', 'SUM-raises', 'MAX-raises', 'PRODUCT-raises', 'nested-call']
 SPECIFIC = [('(1/0)', '#DIV/0!', 'operator'), ('(2/(1-1))', '#DIV/0!', 'operator'), ('("q"+1)', '#VALUE!', 'operator'), ('(1-DATE(2019,1,1))', '#NUM!', 'operator'),
             ('NA()', '#N/A', 'builtin-returns'), ('SQRT("q")', '#VALUE!', 'builtin-returns'), ('INDEX({1,2},5)', '#REF!', 'builtin-returns'),
-            ('SUM(1/0)', '#DIV/0!', 'SUM-raises'), ('MAX({1,2},NA())', '#N/A', 'MAX-raises'), ('MOD(5,0)', '#DIV/0!', 'builtin-returns')]
+            ('SUM(1/0)', '#DIV/0!', 'SUM-raises'), ('MAX({1,2},NA())', '#N/A', 'MAX-raises'), ('MOD(5,0)', '#DIV/0!', 'builtin-returns'),
+            # a divisor that is zero only after conversion (the date with serial 0), an array-length mismatch, a date result before 1900: errors the operators make themselves
+            ('(1/DATE(1900,1,1))', '#DIV/0!', 'operator'), ('({1,2}+{1,2,3})', '#VALUE!', 'operator'), ('(v_arr*{1,2})', '#VALUE!', 'operator'), ('(DATE(1900,1,5)-10)', '#NUM!', 'operator'), ('(5/"0")', '#DIV/0!', 'operator')]
 
 
 def source_node(code, route):
